@@ -205,6 +205,19 @@ def evaluate(case) -> Result:
                 res.classes.append("sender:overlapping-reconnect")
                 if case["sender_overlap"] == "old-closed":
                     w.peer_close(sender_conns[0])
+        # history: requests the node has handled before (either peer, any application id / realm); the disposition of
+        # the request under test is a function of the configuration alone
+        for j, (who, aid_, realm_) in enumerate(case.get("earlier") or []):
+            src = c1 if who == 0 else c2
+            if src is None or src.node_closed:
+                continue
+            w.feed_msg(src, {"k": "REQ", "host": f"peer{who + 1}.example", "hbh": 0x2800 + j, "e2e": 0x2800 + j,
+                             "app": aid_, "dest_realm": realm_})
+        if case.get("earlier"):
+            w.advance(1)
+            res.classes.append("with-earlier-requests")
+            if any(r["hbh"] >= 0x2800 and r["hbh"] < 0x2900 and r["app_id"] == case["app_id"] for r in w.requests_seen):
+                res.classes.append("earlier-delivery-of-same-app-id")
         n0 = len(sender.refresh())
         noise = case.get("noise", [])
         if "DWR-before" in noise:
@@ -395,6 +408,22 @@ def shard_main(shard, nshards, tier, scale):
             record(rec, case, res)
         hyp.run_given(full_spec_strategy(k), wbody, 1, derive_seed(PID, "wd", k.__name__), rec=rec)
 
+    # each layout: the other peer's matching request first, then the request under test from a sender that is not
+    # configured for that application (or configured for another application of the same id)
+    for k in classes[shard::nshards]:
+        for layout in (0, 1, 2):
+            for sender in ("peer1.example", "peer2.example"):
+                def ebody(spec, k=k, layout=layout, sender=sender):
+                    ids_ = sorted({a[0] for a in LAYOUTS[layout]["apps"]})
+                    other = 1 if sender == "peer1.example" else 0
+                    for aid_ in ids_:
+                        case = {"cls": k.__name__, "spec": spec, "removed": [], "realm": "example", "app_id": aid_,
+                                "sender_host": sender, "layout": layout, "earlier": [[other, aid_, "example"]]}
+                        res = evaluate(case)
+                        res.classes.append("earlier-grid")
+                        record(rec, case, res)
+                hyp.run_given(full_spec_strategy(k), ebody, 1, derive_seed(PID, "eg", k.__name__, layout, sender), rec=rec)
+
     n = int((6000 if thorough else 400) * scale)
 
     @st.composite
@@ -414,6 +443,9 @@ def shard_main(shard, nshards, tier, scale):
                 "sender_dir": draw(st.sampled_from(["in", "in", "out"])), "t_flag": draw(st.sampled_from([False, False, True])),
                 "sender_overlap": draw(st.sampled_from([None, None, None, "both-open", "old-closed"])),
                 "sender_spelling": draw(st.sampled_from([None, "UPPER", "Title"])),
+                "earlier": draw(st.one_of(st.just([]), st.lists(st.tuples(
+                    st.integers(0, 1), st.sampled_from(ids + [999]),
+                    st.sampled_from(["example", "example", "extra.example", "Roaming.Example"])).map(list), min_size=1, max_size=3))),
                 "seed": draw(st.integers(0, 3))}
 
     def rbody(case):
@@ -429,7 +461,7 @@ def run(tier, scale=1.0):
     rec = Recorder(PID)
     for d in hyp.pool_run(shard_main, (tier, scale)):
         rec.merge(d)
-    required = {"sender:overlapping-reconnect": 1, "t-flag:new-request": 1, "sender:awaiting-dwa": 1, "sender:outbound-respelled": 1, "layout:mixed-case-realm": 1, "expect:deliver": 1, "expect:5005": 1, "expect:3003": 1, "expect:3007": 1, "handler:raise": 1,
+    required = {"with-earlier-requests": 1, "earlier-delivery-of-same-app-id": 1, "sender:overlapping-reconnect": 1, "t-flag:new-request": 1, "sender:awaiting-dwa": 1, "sender:outbound-respelled": 1, "layout:mixed-case-realm": 1, "expect:deliver": 1, "expect:5005": 1, "expect:3003": 1, "expect:3007": 1, "handler:raise": 1,
                 "layout:same-id-two-peers": 1, "layout:three-apps": 1, "app:threading": 1, "removed:2": 1}
     return finish(rec, tier=tier, level="exploration", rule=RULE, assumptions=ASSUME, t0=t0,
                   required_classes=required,
